@@ -378,7 +378,7 @@ impl TypedScenario for C20Timer {
     fn budget(&self, tier: Tier) -> usize {
         match tier {
             Tier::Quick => 2500,
-            Tier::Thorough => 200_000,
+            Tier::Thorough => 1_000_000,
         }
     }
     fn generate(&self, seed: u64, index: usize, _tier: Tier) -> TimerPlan {
@@ -441,7 +441,7 @@ impl TypedScenario for C20Range {
     fn budget(&self, tier: Tier) -> usize {
         RANGE_MS.len() * 2 + match tier {
             Tier::Quick => 200,
-            Tier::Thorough => 20_000,
+            Tier::Thorough => 100_000,
         }
     }
     fn generate(&self, seed: u64, index: usize, _tier: Tier) -> RangePlan {
@@ -563,7 +563,7 @@ impl TypedScenario for C20Mig {
     fn budget(&self, tier: Tier) -> usize {
         match tier {
             Tier::Quick => 600,
-            Tier::Thorough => 50_000,
+            Tier::Thorough => 250_000,
         }
     }
     fn generate(&self, seed: u64, index: usize, _tier: Tier) -> MigPlan {
@@ -819,7 +819,7 @@ impl TypedScenario for C20Reload {
     fn budget(&self, tier: Tier) -> usize {
         match tier {
             Tier::Quick => 300,
-            Tier::Thorough => 20_000,
+            Tier::Thorough => 100_000,
         }
     }
     fn generate(&self, seed: u64, _index: usize, _tier: Tier) -> ReloadPlan {
